@@ -392,8 +392,18 @@ structure Same (s s' : S) : Prop where
   ipc : s'.ipc = s.ipc
   kind : s'.kind = s.kind
 
+/-- where the scheduler's plain code can leave the main context: between calls, or immediately before an atomic operation -/
+def PostPc : MPc → Prop
+  | .idle | .wake | .hRecv | .recv _ | .taintF => True
+  | _ => False
+
+theorem PostPc.calm {pc : MPc} (h : PostPc pc) : Calm pc := by
+  cases pc <;> first | exact False.elim h | trivial
+
 structure SchedFrame (s s' : S) : Prop extends Same s s' where
-  calm : Calm s'.mpc
+  post : PostPc s'.mpc
+
+theorem SchedFrame.calm {s s' : S} (h : SchedFrame s s') : Calm s'.mpc := h.post.calm
 
 theorem frame_finishPass {s0 s : S} (h : Same s0 s) (v : BitVec 32) : SchedFrame s0 (finishPass s v) :=
   ⟨⟨h.aq, h.eq, h.ipc, h.kind⟩, trivial⟩
